@@ -85,7 +85,7 @@ class Client:
         return None
 
 
-def full_session(c, docdir, texts):
+def full_session(c, docdir, texts, sweep_step=2):
     """Every notification and command except the user-initiated HarperOpen."""
     c.request("initialize", {"capabilities": {}, "processId": None, "rootUri": None})
     c.notify("initialized", {})
@@ -103,6 +103,16 @@ def full_session(c, docdir, texts):
         c.notify("textDocument/didChange", {"textDocument": {"uri": uri, "version": 2}, "contentChanges": [{"text": text + " Another teh line."}]})
         acts = c.request("textDocument/codeAction", {"textDocument": {"uri": uri}, "range": diags[0]["range"] if diags else {"start": {"line": 0, "character": 0}, "end": {"line": 0, "character": 1}},
                                                      "context": {"diagnostics": []}})
+        # the editor asks for code actions wherever the cursor goes: sweep the whole document
+        # (HarperOpen is offered on URLs; it is never executed here)
+        lines = text.split("\n")
+        swept = 0
+        for li, line in enumerate(lines):
+            for ch in range(0, len(line) + 1, sweep_step):
+                pos = {"line": li, "character": ch}
+                c.request("textDocument/codeAction", {"textDocument": {"uri": uri}, "range": {"start": pos, "end": pos}, "context": {"diagnostics": []}})
+                swept += 1
+        c.swept = getattr(c, "swept", 0) + swept
         cmds = []
         for a in (acts or {}).get("result") or []:
             cmd = a.get("command") if isinstance(a.get("command"), dict) else (a if "command" in a and isinstance(a["command"], str) else None)
